@@ -32,6 +32,51 @@ def manual_impls(repo):
                     m = re.match(r"\s*(?:unsafe\s+)?impl\s*(?:<[^>]*>)?\s*(?:::)?(?:[a-z_]+::)*(" + ASSUMED_TRAITS + r")\s+for\s+([A-Za-z_][A-Za-z0-9_:]*)", code)
                     if m: out.append({"file": rel, "line": n, "impl": re.sub(r"\s+", " ", "%s for %s" % (m.group(1), m.group(2)))})
     return out
+def uncovered_changes(repo, changed_files, commit):
+    """changed CODE lines (current tree against the baseline commit) that lie outside every item any unit template extracts, outside
+    #[cfg(test)] modules and outside comments: code the contracts do not see.  Returns ["file:line text", ...]; [] when the baseline
+    text is not available (no git / commit unknown) - the caller then falls back to the coarse answer."""
+    import re, glob, subprocess, difflib
+    sys.path.insert(0, os.path.join(ROOT, "tools"))
+    import extract
+    wanted = {}
+    for t in sorted(glob.glob(os.path.join(ROOT, "vc", "units", "*.rs.tmpl"))):
+        for l in open(t):
+            m = re.match(r"\s*//@extract\s+(\S+)\s*::\s*(.+)$", l.strip())
+            if m: wanted.setdefault(m.group(1), set()).add(m.group(2).strip())
+    out, cache = [], {}
+    for f in changed_files:
+        full = os.path.join(repo, f)
+        cur = open(full, errors="replace").read() if os.path.exists(full) else ""
+        try:
+            base = subprocess.run(["git", "-C", repo, "show", "%s:%s" % (commit, f)], capture_output=True, text=True, timeout=30)
+            if base.returncode != 0: base_txt = ""      # a new file: everything in it is new
+            else: base_txt = base.stdout
+        except Exception:
+            return []
+        covered = set()
+        for path in wanted.get(f, ()):
+            try:
+                src, item = extract.locate(repo, f, path, cache)
+                a = src.count("\n", 0, item.start) + 1; b = src.count("\n", 0, item.end) + 1
+                covered.update(range(a, b + 1))
+            except Exception:
+                pass
+        cl = cur.split("\n"); bl = base_txt.split("\n")
+        cut = next((i + 1 for i, l in enumerate(cl) if "#[cfg(test)]" in l), len(cl) + 1)
+        sm = difflib.SequenceMatcher(None, bl, cl, autojunk=False)
+        for tag, i1, i2, j1, j2 in sm.get_opcodes():
+            if tag == "equal": continue
+            lines = list(range(j1 + 1, j2 + 1)) or [min(j1 + 1, len(cl))]      # a pure deletion is sited at the line that follows it
+            removed_code = any(b.split("//")[0].strip() for b in bl[i1:i2])
+            for n in lines:
+                if n >= cut or n in covered: continue
+                txt = cl[n - 1].split("//")[0].strip() if 0 < n <= len(cl) else ""
+                if tag == "delete":
+                    if removed_code: out.append("%s:%d (code removed in front of this line)" % (f, n))
+                elif txt and not txt.startswith("#[") and not txt.startswith("use ") and not txt.startswith("extern crate"):
+                    out.append("%s:%d %s" % (f, n, txt[:80]))
+    return out
 def baseline_fn_texts(repo):
     """verbatim text of every item the unit templates extract, on the baseline tree.  Used ONLY to adapt GHOST text (invariants,
     hints) to renamed locals (run_check.py adapt_ghost_renames): never verified, never compared with the code under test"""
@@ -52,7 +97,10 @@ def baseline_fn_texts(repo):
     return out
 if __name__ == "__main__":
     repo = sys.argv[1] if len(sys.argv) > 1 else "/repo"
-    json.dump({"files": tree_hashes(repo)}, open(os.path.join(ROOT, "vc", "baseline_tree.json"), "w"), indent=1, sort_keys=True)
+    import subprocess
+    try: commit = subprocess.run(["git", "-C", repo, "rev-parse", "HEAD"], capture_output=True, text=True).stdout.strip()
+    except Exception: commit = ""
+    json.dump({"files": tree_hashes(repo), "commit": commit}, open(os.path.join(ROOT, "vc", "baseline_tree.json"), "w"), indent=1, sort_keys=True)
     print("baseline recorded:", len(tree_hashes(repo)), "files")
     json.dump({"impls": sorted(set("%s: %s" % (e["file"], e["impl"]) for e in manual_impls(repo)))}, open(os.path.join(ROOT, "vc", "baseline_impls.json"), "w"), indent=1)
     fns = baseline_fn_texts(repo)
